@@ -45,6 +45,11 @@ def corpus(rng, tier, wd, run):
     bad = [c["f"] for c in r.tagged("FILE") if c["bad"]]
     for f in rng.sample(bad, min(len(bad), 400 if tier == "quick" else 6000)):
         srcs.append(("edited", validate.render(f, rng)[0]))
+    # files with SEVERAL INDEPENDENT violations OF THE SAME KIND (two groups of clashing variants in one enum, two pairs of
+    # equal variant names, several undefined references, several clashing top-level names, ...): whichever the
+    # implementation reports, it must be the same one under every hash seed
+    for _ in range(160 if tier == "quick" else 4000):
+        srcs.append(("same-kind", validate.render(same_kind_violations(rng), rng)[0]))
     # grammars with several conflicts in different states: the bracket family of the pipeline engine
     for _ in range(150 if tier == "quick" else 2000):
         G = pipeline.bracket_grammar(rng)
@@ -52,6 +57,70 @@ def corpus(rng, tier, wd, run):
         pres["ts"] = list(G["ts"])
         srcs.append(("bracket", grammar.render(G, pres)))
     return srcs
+
+
+def same_kind_violations(rng):
+    """An abstract file (validate.render's format) with 2-3 independent instances of ONE kind of violation, in random order."""
+    T = ["X", "Y", "Z", "W"]
+    fld = lambda sym, dollar, fname="": {"fname": fname, "sym": sym, "dollar": dollar}
+    tup = lambda vname, syms: {"vname": vname, "style": "tuple", "fields": [fld(s, d) for s, d in syms]}
+    seqs = [[("X", True)], [("Y", True)], [("X", True), ("Y", True)], [("Z", True), ("X", True)], [("A", False)], [("A", False), ("Z", True)], [("W", True)]]
+    f = {"starts": ["S"], "tenums": [{"name": "Tok", "vars": list(T)}],
+         "nts": [{"kind": "struct", "name": "S", "vars": [tup("", [("E", False), ("A", False)])]},
+                 {"kind": "struct", "name": "A", "vars": [tup("", [("X", True)])]}]}
+    kind = rng.choice(["seq-clash", "variant-names", "undefined-nt", "undefined-t", "top-names", "lowercase", "starts", "tenums", "field-case", "mixed-dollar"])
+    n = rng.choice([2, 2, 3])
+    if kind == "seq-clash":
+        groups = rng.sample(seqs, n)
+        vs = []
+        for gi, g in enumerate(groups):
+            for k in range(rng.choice([2, 2, 3])):
+                vs.append(tup("V%d_%d" % (gi, k), g))
+        vs += [tup("Lone", rng.choice([q for q in seqs if q not in groups]))]
+        rng.shuffle(vs)
+        f["nts"].append({"kind": "enum", "name": "E", "vars": vs})
+    elif kind == "variant-names":
+        names = rng.sample(["Va", "Vb", "Vc", "Vd"], n)
+        qs = rng.sample(seqs, len(seqs))
+        vs = [tup(nm, qs[i]) for i, nm in enumerate(names + names)] + [tup("Lone", qs[-1])]
+        rng.shuffle(vs)
+        f["nts"].append({"kind": "enum", "name": "E", "vars": vs})
+    else:
+        f["nts"].append({"kind": "enum", "name": "E", "vars": [tup("Va", seqs[0]), tup("Vb", seqs[2])]})
+        if kind == "undefined-nt":
+            names = rng.sample(["U1", "Q", "Missing", "Nope"], n)
+            for i, u in enumerate(names):
+                f["nts"].append({"kind": "struct", "name": "R%d" % i, "vars": [tup("", [("X", True), (u, False)])]})
+            if rng.random() < 0.5:
+                f["nts"][-1]["vars"][0]["fields"].append(fld(rng.choice(names), False))
+        elif kind == "undefined-t":
+            names = rng.sample(["U1", "Q", "Missing", "Nope"], n)
+            f["nts"].append({"kind": "enum", "name": "R", "vars": [tup("K%d" % i, [(u, True)]) for i, u in enumerate(names)]})
+        elif kind == "top-names":
+            names = rng.sample(["A", "E", "S", "X", "Tok", "Dup"], n)
+            for nm in names:
+                f["nts"].append({"kind": rng.choice(["struct", "enum"]), "name": nm, "vars": [tup("" , [("Y", True)])]})
+                if f["nts"][-1]["kind"] == "enum":
+                    f["nts"][-1]["vars"] = [tup("Only", [("Y", True)])]
+            if "Dup" in names:
+                f["nts"].append({"kind": "struct", "name": "Dup", "vars": [tup("", [("Z", True)])]})
+            rng.shuffle(f["nts"])
+        elif kind == "lowercase":
+            for nm in rng.sample(["foo", "bar", "_x", "baz9"], n):
+                f["nts"].append({"kind": "struct", "name": nm, "vars": [tup("", [("Y", True)])]})
+            if rng.random() < 0.5:
+                f["tenums"][0]["vars"] = f["tenums"][0]["vars"] + rng.sample(["x1", "yy"], 2)
+        elif kind == "starts":
+            f["starts"] = [rng.choice(["S", "A", "E"]) for _ in range(n + 1)]
+        elif kind == "tenums":
+            f["tenums"] = [{"name": "Tok%d" % i, "vars": list(T)} for i in range(n)] if rng.random() < 0.7 else []
+        elif kind == "field-case":
+            f["nts"].append({"kind": "struct", "name": "R", "vars": [{"vname": "", "style": "named",
+                             "fields": [fld("X", True, nm) for nm in rng.sample(["Foo", "Bar", "ok", "Baz", "_Q"], n + 1)]}]})
+        else:   # `$` on a nonterminal / none on a terminal, several times
+            f["nts"].append({"kind": "struct", "name": "R", "vars": [tup("", [(rng.choice(["A", "E", "S"]), True) for _ in range(n)] +
+                                                                           [(rng.choice(T), False) for _ in range(n)])]})
+    return f
 
 
 def outcome_digest(res):
